@@ -310,11 +310,16 @@ pub fn exec(sc: &Sc) -> Outcome {
 }
 
 pub fn scenarios(tier: Tier) -> Vec<Sc> {
-    let thorough = tier == Tier::Thorough;
+    let thorough = tier >= Tier::Thorough;
+    let deep = tier >= Tier::Deep;
     let mut out = vec![];
     let qids: Vec<u64> = vec![0, 1, 62, 63, 64, 16383, 16384, (1 << 30) - 1, 1 << 30, rc::QUARTER_ID_MAX];
     let mut lens: Vec<usize> = (0..=64).collect();
     lens.extend([1199, 1200, 1201]);
+    if deep {
+        lens = (0..=1300).collect();
+        lens.extend([4096, 16383, 16384, 65535, 65536]);
+    }
     for &q in &qids {
         for &l in &lens {
             for c in 0..2u8 {
@@ -334,7 +339,7 @@ pub fn scenarios(tier: Tier) -> Vec<Sc> {
     }
     out.push(Sc::PureRead { qid: 0, id_len: 0, len: 0 });
     // live bursts
-    let ks: Vec<usize> = if thorough { (1..=8).collect() } else { vec![1, 2, 3, 8] };
+    let ks: Vec<usize> = if deep { (1..=20).collect() } else if thorough { (1..=8).collect() } else { vec![1, 2, 3, 8] };
     for topo in 0..4u8 {
         for &k in &ks {
             for pattern in 0..3u8 {
@@ -348,6 +353,10 @@ pub fn scenarios(tier: Tier) -> Vec<Sc> {
                             continue;
                         }
                         out.push(Sc::Burst { topo, k, pattern, foreign, id_len, lens: vec![0, 1, 64, 1000] });
+                        if deep {
+                            out.push(Sc::Burst { topo, k, pattern, foreign, id_len, lens: vec![1100, 0, 1, 2, 3] });
+                            out.push(Sc::Burst { topo, k, pattern, foreign, id_len, lens: vec![5] });
+                        }
                     }
                 }
             }
@@ -360,6 +369,13 @@ pub fn scenarios(tier: Tier) -> Vec<Sc> {
             out.push(Sc::Size { limit: l, role_server: role });
         }
     }
+    if deep {
+        for l in 0..=1400usize {
+            for role in [true, false] {
+                out.push(Sc::Size { limit: Some(l), role_server: role });
+            }
+        }
+    }
     if thorough {
         for l in 3..=40usize {
             out.push(Sc::Size { limit: Some(l), role_server: l % 2 == 0 });
@@ -368,7 +384,7 @@ pub fn scenarios(tier: Tier) -> Vec<Sc> {
             out.push(Sc::Size { limit: Some(l), role_server: true });
         }
     }
-    out
+    dedup(out, |s| s.to_json().to_string())
 }
 
 pub fn run_check(args: &Args) -> i32 {
